@@ -109,9 +109,14 @@ def installed(chooser, bundle="axis6", rw_maxiter=None, events=None, fault_steps
     # ---- template initial layout: deterministic, no global draws
     real_kk = nx.kamada_kawai_layout
 
+    kk_calls = [0]
+
     def kk(G, dim=2, **k):
+        # networkx starts the 3-d layout from np.random: here every call gets its own fixed stream, so that two template
+        # generations in one execution start differently (as they do in reality) while the execution stays replayable
         nodes = list(G.nodes)
-        rs = np.random.RandomState(12345)
+        rs = np.random.RandomState(12345 + kk_calls[0])
+        kk_calls[0] += 1
         pos = {n: rs.rand(dim) for n in nodes}
         if len(nodes) == 1:
             return {nodes[0]: np.zeros(dim)}
